@@ -758,4 +758,454 @@ theorem sub_keyed_perm (cfg : Cfg) (h : NoPathOpts cfg) (hd : cfg.direct = false
   rw [verdict_eq_okD, verdict_eq_okD, sub_keyed_diffs cfg h hd site p c c' xs ys hn hno,
     sub_keyed_diffs cfg h hd site p' c₁ c₁' xs' ys' hn' hno', levelD_perm cfg hx hy hno]
 
+/-! ### target 4: permuting lists anywhere in the tree -/
+
+mutual
+/-- `v'` is `v` with the lists inside it permuted (at every depth) -/
+inductive PermTree : Val → Val → Prop
+  | none : PermTree .none .none
+  | bool (b : Bool) : PermTree (.bool b) (.bool b)
+  | int (i : Int) : PermTree (.int i) (.int i)
+  | flt (r : Str) : PermTree (.flt r) (.flt r)
+  | str (s : Str) : PermTree (.str s) (.str s)
+  | list (c : Cls) {xs xs1 xs' : List Val} : xs.Perm xs1 → PermList xs1 xs' → PermTree (.list c xs) (.list c xs')
+  | dict (c : Cls) {kvs kvs' : List (Str × Val)} : PermKvs kvs kvs' → PermTree (.dict c kvs) (.dict c kvs')
+/-- element-wise `PermTree` -/
+inductive PermList : List Val → List Val → Prop
+  | nil : PermList [] []
+  | cons {x x' : Val} {xs xs' : List Val} : PermTree x x' → PermList xs xs' → PermList (x :: xs) (x' :: xs')
+/-- same keys in the same order, `PermTree` values -/
+inductive PermKvs : List (Str × Val) → List (Str × Val) → Prop
+  | nil : PermKvs [] []
+  | cons (k : Str) {v v' : Val} {kvs kvs' : List (Str × Val)} :
+      PermTree v v' → PermKvs kvs kvs' → PermKvs ((k, v) :: kvs) ((k, v') :: kvs')
+end
+
+/-- a list element whose key is stable under `PermTree`: not itself a list, and the key fields of a record
+are scalars -/
+def itemOk (cfg : Cfg) : Val → Prop
+  | .list _ _ => False
+  | .dict _ kvs => ∀ f ∈ cfg.ck.pats, ∀ v, Val.lookup f kvs = some v → v.isScalar = true
+  | _ => True
+
+mutual
+/-- every list inside the value has pairwise different composite keys (and stable keys) -/
+def UniqueKeys (cfg : Cfg) : Val → Prop
+  | .list _ xs => (xs.map (keyP cfg)).Nodup ∧ UniqueKeysL cfg xs
+  | .dict _ kvs => UniqueKeysK cfg kvs
+  | _ => True
+def UniqueKeysL (cfg : Cfg) : List Val → Prop
+  | [] => True
+  | x :: xs => (itemOk cfg x ∧ UniqueKeys cfg x) ∧ UniqueKeysL cfg xs
+def UniqueKeysK (cfg : Cfg) : List (Str × Val) → Prop
+  | [] => True
+  | (_, v) :: kvs => UniqueKeys cfg v ∧ UniqueKeysK cfg kvs
+end
+
+theorem uniqueKeysL_mem (cfg : Cfg) : ∀ (xs : List Val), UniqueKeysL cfg xs → ∀ x ∈ xs, itemOk cfg x ∧ UniqueKeys cfg x
+  | [], _, x, hx => by cases hx
+  | z :: xs, h, x, hx => by
+    simp only [UniqueKeysL] at h
+    cases hx with
+    | head => exact h.1
+    | tail _ hx' => exact uniqueKeysL_mem cfg xs h.2 x hx'
+
+theorem uniqueKeysK_lookup (cfg : Cfg) (k : Str) : ∀ (kvs : List (Str × Val)) (v : Val), UniqueKeysK cfg kvs →
+    Val.lookup k kvs = some v → UniqueKeys cfg v
+  | [], _, _, h => by simp [Val.lookup] at h
+  | (k0, v0) :: rest, v, hu, h => by
+    simp only [UniqueKeysK] at hu
+    simp only [Val.lookup] at h
+    split at h
+    · cases h; exact hu.1
+    · exact uniqueKeysK_lookup cfg k rest v hu.2 h
+
+theorem PermTree.tyOf_eq {v v' : Val} (h : PermTree v v') : tyOf v = tyOf v' := by
+  cases h <;> rfl
+
+theorem PermTree.eq_of_isScalar {v v' : Val} (h : PermTree v v') (hs : v.isScalar = true) : v = v' := by
+  cases h <;> simp_all [Val.isScalar]
+
+theorem isPyScalar_isScalar {v : Val} (h : isPyScalar v = true) : v.isScalar = true := by
+  cases v <;> simp_all [isPyScalar, Val.isScalar]
+
+theorem leafD_permTree {v v' w w' : Val} (hv : PermTree v v') (hw : PermTree w w') :
+    leafD v w = leafD v' w' := by
+  have h1 := hv.tyOf_eq
+  have h2 := hw.tyOf_eq
+  unfold leafD
+  by_cases ht : tyOf v = tyOf w
+  · have ht' : tyOf v' = tyOf w' := by rw [← h1, ← h2]; exact ht
+    by_cases hs : isPyScalar v = true
+    · have hsw : isPyScalar w = true := by rw [← tyOf_scalar_eq ht]; exact hs
+      have e1 := hv.eq_of_isScalar (isPyScalar_isScalar hs)
+      have e2 := hw.eq_of_isScalar (isPyScalar_isScalar hsw)
+      subst e1; subst e2; rfl
+    · have hs' : ¬ isPyScalar v' = true := by rw [← tyOf_scalar_eq h1]; exact hs
+      simp [ht, ht', hs, hs']
+  · have ht' : ¬ tyOf v' = tyOf w' := by rw [← h1, ← h2]; exact ht
+    simp [ht, ht']
+
+theorem permKvs_lookup_none (k : Str) : ∀ (kvs kvs' : List (Str × Val)), PermKvs kvs kvs' →
+    Val.lookup k kvs = none → Val.lookup k kvs' = none
+  | [], _, h, _ => by cases h; rfl
+  | (k0, v) :: rest, _, h, hl => by
+    cases h with
+    | cons _ hv hr =>
+      simp only [Val.lookup] at hl ⊢
+      split at hl
+      · cases hl
+      · rename_i hne
+        simp only [hne, ↓reduceIte]
+        exact permKvs_lookup_none k rest _ hr hl
+
+theorem permKvs_lookup_some (k : Str) : ∀ (kvs kvs' : List (Str × Val)) (v : Val), PermKvs kvs kvs' →
+    Val.lookup k kvs = some v → ∃ v', Val.lookup k kvs' = some v' ∧ PermTree v v'
+  | [], _, _, _, hl => by simp [Val.lookup] at hl
+  | (k0, v0) :: rest, _, v, h, hl => by
+    cases h with
+    | cons _ hv hr =>
+      simp only [Val.lookup] at hl ⊢
+      split at hl
+      · rename_i he
+        cases hl
+        exact ⟨_, by simp [he], hv⟩
+      · rename_i hne
+        simp only [hne, ↓reduceIte]
+        exact permKvs_lookup_some k rest _ v hr hl
+
+theorem permKvs_hasKey (k : Str) {kvs kvs' : List (Str × Val)} (h : PermKvs kvs kvs') :
+    hasKey k kvs = hasKey k kvs' := by
+  unfold hasKey
+  cases hl : Val.lookup k kvs with
+  | none => rw [permKvs_lookup_none k kvs kvs' h hl]
+  | some v =>
+    obtain ⟨v', hv', _⟩ := permKvs_lookup_some k kvs kvs' v h hl
+    rw [hv']; rfl
+
+theorem recKey_permKvs {kvs kvs' : List (Str × Val)} (hk : PermKvs kvs kvs') :
+    ∀ (fs : List Str) (acc : Str), (∀ f ∈ fs, ∀ v, Val.lookup f kvs = some v → v.isScalar = true) →
+      recKey kvs fs acc = recKey kvs' fs acc
+  | [], _, _ => rfl
+  | f :: fs, acc, hs => by
+    have hs' : ∀ g ∈ fs, ∀ v, Val.lookup g kvs = some v → v.isScalar = true :=
+      fun g hg => hs g (List.mem_cons_of_mem _ hg)
+    simp only [recKey]
+    cases hl : Val.lookup f kvs with
+    | none =>
+      rw [permKvs_lookup_none f kvs kvs' hk hl]
+      exact recKey_permKvs hk fs acc hs'
+    | some v =>
+      obtain ⟨v', hv', hp⟩ := permKvs_lookup_some f kvs kvs' v hk hl
+      have := hp.eq_of_isScalar (hs f List.mem_cons_self v hl)
+      subst this
+      rw [hv']
+      exact recKey_permKvs hk fs _ hs'
+
+theorem keyP_permTree (cfg : Cfg) {x x' : Val} (hp : PermTree x x') (hi : itemOk cfg x) :
+    keyP cfg x = keyP cfg x' := by
+  cases hp with
+  | list c _ _ => simp [itemOk] at hi
+  | dict c hk =>
+    simp only [keyP]
+    split
+    · rfl
+    · exact recKey_permKvs hk _ _ hi
+  | _ => rfl
+
+theorem permList_keys (cfg : Cfg) : ∀ (xs xs' : List Val), PermList xs xs' → (∀ x ∈ xs, itemOk cfg x) →
+    xs.map (keyP cfg) = xs'.map (keyP cfg)
+  | [], _, h, _ => by cases h; rfl
+  | x :: xs, _, h, hi => by
+    cases h with
+    | cons hx hr =>
+      simp only [List.map_cons]
+      rw [keyP_permTree cfg hx (hi x List.mem_cons_self),
+        permList_keys cfg xs _ hr (fun z hz => hi z (List.mem_cons_of_mem _ hz))]
+
+/-- a leaf decision, or else the lines of the container step -/
+def leafOr (l : Option Nat) (d : Except PyErr Nat) : Except PyErr Nat :=
+  match l with
+  | some n => .ok n
+  | none => d
+
+theorem itemRes_dE_leaf {cfg : Cfg} (h : NoPathOpts cfg) (p pne pdt : Path) (sa oa x y : Val) :
+    dE (itemRes cfg p pne pdt sa oa x y) = leafOr (leafD x y) (dE (sub cfg .item pne x y)) := by
+  have h1 := classifyItem_actD h p pne pdt sa oa x y
+  simp only [itemRes]
+  cases hc : classifyItem cfg p pne pdt sa oa x y with
+  | emit r s => rw [hc] at h1; simp only [actD] at h1; rw [← h1]; rfl
+  | descend => rw [hc] at h1; simp only [actD] at h1; rw [← h1]; rfl
+
+theorem pairD_leaf {cfg : Cfg} (h : NoPathOpts cfg) (x y : Val) :
+    pairD cfg x y = leafOr (leafD x y) (dE (sub cfg .item [] x y)) :=
+  itemRes_dE_leaf h [] [] [] .none .none x y
+
+theorem dictWalk_cons_dE {cfg : Cfg} (h : NoPathOpts cfg) (p : Path) (sa oa : Val) (skvs okvs : List (Str × Val))
+    (still : Bool) (k : Str) (v : Val) (rest : List (Str × Val)) :
+    dE (dictWalk cfg p sa oa skvs okvs still ((k, v) :: rest)) =
+      match Val.lookup k okvs with
+      | none => dE (dictWalk cfg p sa oa skvs okvs still rest)
+      | some w =>
+        addE (leafOr (leafD v w) (dE (sub cfg .entry (p ++ [.key k]) v w)))
+          (dE (dictWalk cfg p sa oa skvs okvs still rest)) := by
+  rw [dictWalk_cons]
+  cases Val.lookup k okvs with
+  | none => rfl
+  | some w =>
+    have h1 := classifyEntry_actD h (p ++ [.key k]) v w
+    simp only
+    cases hc : classifyEntry cfg (p ++ [.key k]) v w with
+    | emit r s =>
+      rw [hc] at h1; simp only [actD] at h1
+      rw [← h1, dE_seqR, dictWalk_pref cfg h p p sa oa sa oa skvs okvs (still && s) still rest]
+      rfl
+    | descend =>
+      rw [hc] at h1; simp only [actD] at h1
+      rw [← h1, dE_seqR]
+      rfl
+
+/-- the induction statement for one left value -/
+def SubInv (cfg : Cfg) (v : Val) : Prop :=
+  ∀ (site : Site) (p : Path) (w v' w' : Val), PermTree v v' → PermTree w w' →
+    UniqueKeys cfg v → UniqueKeys cfg w →
+    okD (dE (sub cfg site p v w)) = okD (dE (sub cfg site p v' w'))
+
+theorem pairD_permTree {cfg : Cfg} (h : NoPathOpts cfg) {x x' y y' : Val} (hS : SubInv cfg x)
+    (hx : PermTree x x') (hy : PermTree y y') (hux : UniqueKeys cfg x) (huy : UniqueKeys cfg y) :
+    okD (pairD cfg x y) = okD (pairD cfg x' y') := by
+  rw [pairD_leaf h, pairD_leaf h, leafD_permTree hx hy]
+  cases leafD x' y' with
+  | some n => rfl
+  | none => exact hS .item [] y x' y' hx hy hux huy
+
+theorem partner_permList (cfg : Cfg) (k : Str) : ∀ (ys ys' : List Val), PermList ys ys' →
+    ys.map (keyP cfg) = ys'.map (keyP cfg) →
+    (partner cfg k ys = none ∧ partner cfg k ys' = none) ∨
+      (∃ y y', partner cfg k ys = some y ∧ partner cfg k ys' = some y' ∧ PermTree y y' ∧ y ∈ ys)
+  | [], _, h, _ => by cases h; left; exact ⟨rfl, rfl⟩
+  | y :: ys, _, h, hk => by
+    cases h with
+    | @cons _ y' _ ys' hy hr =>
+      simp only [List.map_cons, List.cons.injEq] at hk
+      by_cases hkk : k = keyP cfg y
+      · right
+        refine ⟨y, y', ?_, ?_, hy, List.mem_cons_self⟩
+        · simp [partner, hkk]
+        · simp [partner, hkk, hk.1]
+      · have hkk' : ¬ k = keyP cfg y' := by rw [← hk.1]; exact hkk
+        have e1 : partner cfg k (y :: ys) = partner cfg k ys := by simp [partner, hkk]
+        have e2 : partner cfg k (y' :: ys') = partner cfg k ys' := by simp [partner, hkk']
+        rw [e1, e2]
+        rcases partner_permList cfg k ys ys' hr hk.2 with ⟨a, b⟩ | ⟨y1, y1', a, b, c, d⟩
+        · left; exact ⟨a, b⟩
+        · right; exact ⟨y1, y1', a, b, c, List.mem_cons_of_mem _ d⟩
+
+theorem elemD_permTree {cfg : Cfg} (h : NoPathOpts cfg) {ys ys' : List Val} (hr : PermList ys ys')
+    (hk : ys.map (keyP cfg) = ys'.map (keyP cfg)) (huy : ∀ y ∈ ys, UniqueKeys cfg y)
+    {x x' : Val} (hx : PermTree x x') (hkx : keyP cfg x = keyP cfg x') (hS : SubInv cfg x)
+    (hux : UniqueKeys cfg x) :
+    okD (elemD cfg ys x) = okD (elemD cfg ys' x') := by
+  simp only [elemD]
+  rw [← hkx]
+  rcases partner_permList cfg (keyP cfg x) ys ys' hr hk with ⟨a, b⟩ | ⟨y, y', a, b, c, d⟩
+  · rw [a, b]
+  · rw [a, b]
+    exact pairD_permTree h hS hx c hux (huy y d)
+
+theorem elemD_list_permList {cfg : Cfg} (h : NoPathOpts cfg) {ys ys' : List Val} (hr : PermList ys ys')
+    (hk : ys.map (keyP cfg) = ys'.map (keyP cfg)) (huy : ∀ y ∈ ys, UniqueKeys cfg y) :
+    ∀ (xs xs' : List Val), PermList xs xs' →
+      (∀ x ∈ xs, itemOk cfg x ∧ UniqueKeys cfg x ∧ SubInv cfg x) →
+      (xs.map (elemD cfg ys)).map okD = (xs'.map (elemD cfg ys')).map okD
+  | [], _, hl, _ => by cases hl; rfl
+  | x :: xs, _, hl, hux => by
+    cases hl with
+    | cons hx hrest =>
+      have hx0 := hux x List.mem_cons_self
+      simp only [List.map_cons]
+      rw [elemD_permTree h hr hk huy hx (keyP_permTree cfg hx hx0.1) hx0.2.2 hx0.2.1,
+        elemD_list_permList h hr hk huy xs _ hrest (fun z hz => hux z (List.mem_cons_of_mem _ hz))]
+
+theorem filter_key_length (cfg : Cfg) (ks : List Str) (ys : List Val) :
+    (ys.filter (fun y => decide (keyP cfg y ∉ ks))).length =
+      ((ys.map (keyP cfg)).filter (fun k => decide (k ∉ ks))).length := by
+  rw [List.filter_map, List.length_map]
+  rfl
+
+theorem levelD_permList {cfg : Cfg} (h : NoPathOpts cfg) {xs xs' ys ys' : List Val}
+    (hx : PermList xs xs') (hy : PermList ys ys')
+    (hux : ∀ x ∈ xs, itemOk cfg x ∧ UniqueKeys cfg x ∧ SubInv cfg x)
+    (huy : ∀ y ∈ ys, itemOk cfg y ∧ UniqueKeys cfg y) :
+    okD (levelD cfg xs ys) = okD (levelD cfg xs' ys') := by
+  have hkx := permList_keys cfg xs xs' hx (fun x hx => (hux x hx).1)
+  have hky := permList_keys cfg ys ys' hy (fun y hy => (huy y hy).1)
+  simp only [levelD, okD_addE, okD_sumE]
+  rw [elemD_list_permList h hy hky (fun y hy => (huy y hy).2) xs xs' hx hux, ← hkx,
+    filter_key_length, filter_key_length cfg _ ys', hky]
+
+theorem sub_list_permTree (cfg : Cfg) (h : NoPathOpts cfg) (hd : cfg.direct = false) (site : Site) (p : Path)
+    (c c' : Cls) {xs xs1 xs' ys ys1 ys' : List Val}
+    (hpx : xs.Perm xs1) (hlx : PermList xs1 xs') (hpy : ys.Perm ys1) (hly : PermList ys1 ys')
+    (hux : UniqueKeys cfg (.list c xs)) (huy : UniqueKeys cfg (.list c' ys))
+    (hS : ∀ x ∈ xs, SubInv cfg x) :
+    okD (dE (sub cfg site p (.list c xs) (.list c' ys))) =
+      okD (dE (sub cfg site p (.list c xs') (.list c' ys'))) := by
+  simp only [UniqueKeys] at hux huy
+  have hix := uniqueKeysL_mem cfg xs hux.2
+  have hiy := uniqueKeysL_mem cfg ys huy.2
+  have hix1 : ∀ x ∈ xs1, itemOk cfg x ∧ UniqueKeys cfg x ∧ SubInv cfg x := by
+    intro x hx
+    have hm := hpx.mem_iff.2 hx
+    exact ⟨(hix x hm).1, (hix x hm).2, hS x hm⟩
+  have hiy1 : ∀ y ∈ ys1, itemOk cfg y ∧ UniqueKeys cfg y := fun y hy => hiy y (hpy.mem_iff.2 hy)
+  have hkx := permList_keys cfg xs1 xs' hlx (fun x hx => (hix1 x hx).1)
+  have hky := permList_keys cfg ys1 ys' hly (fun y hy => (hiy1 y hy).1)
+  have hn1 : (xs1.map (keyP cfg)).Nodup := (hpx.map (keyP cfg)).nodup_iff.1 hux.1
+  have hno1 : (ys1.map (keyP cfg)).Nodup := (hpy.map (keyP cfg)).nodup_iff.1 huy.1
+  rw [sub_keyed_diffs cfg h hd site p c c' xs ys hux.1 huy.1,
+    sub_keyed_diffs cfg h hd site p c c' xs' ys' (hkx ▸ hn1) (hky ▸ hno1),
+    levelD_perm cfg hpx hpy huy.1, levelD_permList h hlx hly hix1 hiy1]
+
+theorem permKvs_filter_length {b b' : List (Str × Val)} (hb : ∀ k, hasKey k b = hasKey k b') :
+    ∀ (a a' : List (Str × Val)), PermKvs a a' →
+      (a.filter (fun kv => !hasKey kv.1 b)).length = (a'.filter (fun kv => !hasKey kv.1 b')).length
+  | [], _, h => by cases h; rfl
+  | (k, v) :: a, _, h => by
+    cases h with
+    | cons _ hv hr =>
+      have ih := permKvs_filter_length hb a _ hr
+      simp only [List.filter_cons, hb k]
+      split <;> simp [ih]
+
+/-- the induction statement for the loop over the keys of a dictionary -/
+def DictInv (cfg : Cfg) (kvs : List (Str × Val)) : Prop :=
+  ∀ (p : Path) (sa oa sa' oa' : Val) (skvs skvs' okvs okvs' kvs' : List (Str × Val)) (still still' : Bool),
+    PermKvs skvs skvs' → PermKvs okvs okvs' → PermKvs kvs kvs' →
+    UniqueKeysK cfg kvs → UniqueKeysK cfg okvs →
+    okD (dE (dictWalk cfg p sa oa skvs okvs still kvs)) =
+      okD (dE (dictWalk cfg p sa' oa' skvs' okvs' still' kvs'))
+
+mutual
+theorem sub_permTree (cfg : Cfg) (h : NoPathOpts cfg) (hd : cfg.direct = false) (v : Val) : SubInv cfg v :=
+  match v with
+  | .list c xs => by
+    have hS := list_permTree cfg h hd xs
+    intro site p w v' w' hv hw huv huw
+    cases hv with
+    | list _ hpx hlx =>
+      cases hw with
+      | list c' hpy hly => exact sub_list_permTree cfg h hd site p c c' hpx hlx hpy hly huv huw hS
+      | _ => simp [sub]
+  | .dict c kvs => by
+    have hK := kvs_permTree cfg h hd kvs
+    intro site p w v' w' hv hw huv huw
+    cases hv with
+    | dict _ hk =>
+      cases hw with
+      | dict c' hko =>
+        simp only [sub]
+        split
+        · rfl
+        · exact hK p _ _ _ _ kvs _ _ _ _ true true hk hko hk huv huw
+      | _ => simp [sub]
+  | .none => by
+    intro site p w v' w' hv hw huv huw
+    cases hv; simp [sub]
+  | .bool _ => by
+    intro site p w v' w' hv hw huv huw
+    cases hv; simp [sub]
+  | .int _ => by
+    intro site p w v' w' hv hw huv huw
+    cases hv; simp [sub]
+  | .flt _ => by
+    intro site p w v' w' hv hw huv huw
+    cases hv; simp [sub]
+  | .str _ => by
+    intro site p w v' w' hv hw huv huw
+    cases hv; simp [sub]
+termination_by structural v
+
+theorem list_permTree (cfg : Cfg) (h : NoPathOpts cfg) (hd : cfg.direct = false) (xs : List Val) :
+    ∀ x ∈ xs, SubInv cfg x :=
+  match xs with
+  | [] => by intro x hx; cases hx
+  | z :: xs => by
+    have hz := sub_permTree cfg h hd z
+    have hrest := list_permTree cfg h hd xs
+    intro x hx
+    rcases List.mem_cons.1 hx with e | hx'
+    · rw [e]; exact hz
+    · exact hrest x hx'
+termination_by structural xs
+
+theorem kvs_permTree (cfg : Cfg) (h : NoPathOpts cfg) (hd : cfg.direct = false) (kvs : List (Str × Val)) :
+    DictInv cfg kvs :=
+  match kvs with
+  | [] => by
+    intro p sa oa sa' oa' skvs skvs' okvs okvs' kvs' still still' hs ho hk hu huo
+    cases hk
+    simp only [dictWalk, dE_ok, dictTail_diffs_npo h]
+    rw [permKvs_filter_length (fun k => permKvs_hasKey k ho) skvs skvs' hs,
+      permKvs_filter_length (fun k => permKvs_hasKey k hs) okvs okvs' ho]
+  | (k, v) :: rest => by
+    have hv0 := sub_permTree cfg h hd v
+    have hrest := kvs_permTree cfg h hd rest
+    intro p sa oa sa' oa' skvs skvs' okvs okvs' kvs' still still' hs ho hk hu huo
+    cases hk with
+    | @cons _ _ v' _ rest' hv hr =>
+      simp only [UniqueKeysK] at hu
+      rw [dictWalk_cons_dE h, dictWalk_cons_dE h]
+      have ih := hrest p sa oa sa' oa' skvs skvs' okvs okvs' rest' still still' hs ho hr hu.2 huo
+      cases hl : Val.lookup k okvs with
+      | none =>
+        rw [permKvs_lookup_none k okvs okvs' ho hl]
+        exact ih
+      | some w =>
+        obtain ⟨w', hw', hpw⟩ := permKvs_lookup_some k okvs okvs' w ho hl
+        rw [hw']
+        simp only [okD_addE, ih, leafD_permTree hv hpw]
+        cases leafD v' w' with
+        | some n => rfl
+        | none =>
+          simp only [leafOr]
+          rw [hv0 .entry _ w v' w' hv hpw hu.1 (uniqueKeysK_lookup cfg k okvs w huo hl)]
+termination_by structural kvs
+end
+
+/-- **Permutation invariance of the verdict (whole tree).**  Keyed comparison with a composite key
+(`cfg.direct = false`, `composite_key` arbitrary, the path options at their defaults): if the composite keys
+are unique within every list of both documents, reordering the lists — at any depth, on either side — changes
+neither the verdict nor whether an exception is raised. -/
+theorem perm_invariant (cfg : Cfg) (h : NoPathOpts cfg) (hd : cfg.direct = false) {a a' b b' : Val}
+    (ha : PermTree a a') (hb : PermTree b b') (hua : UniqueKeys cfg a) (hub : UniqueKeys cfg b) :
+    verdict (compareTop cfg a b) = verdict (compareTop cfg a' b') := by
+  have key := sub_permTree cfg h hd a .entry [] b a' b' ha hb hua hub
+  cases ha with
+  | list c hpx hlx =>
+    cases c with
+    | plain => simp [compareTop]
+    | n0 =>
+      cases hb with
+      | list c' hpy hly =>
+        cases c' with
+        | plain => simp [compareTop]
+        | n0 =>
+          simp only [compareTop, verdict_eq_okD]
+          rw [key]
+      | _ => simp [compareTop]
+  | dict c hk =>
+    cases c with
+    | plain => simp [compareTop]
+    | n0 =>
+      cases hb with
+      | dict c' hko =>
+        cases c' with
+        | plain => simp [compareTop]
+        | n0 =>
+          rw [compareTop_eq_sub cfg _ _ (by simp [RootPair]), compareTop_eq_sub cfg _ _ (by simp [RootPair]),
+            verdict_eq_okD, verdict_eq_okD, key]
+      | _ => simp [compareTop]
+  | _ => simp [compareTop]
+
 end N0.Compare
